@@ -5,6 +5,7 @@ Theorems about `Dassh.Model.Mesh` (the executable model of `_map_asm2gap`, tied 
 the code by the correspondence check), over any linearly ordered field.
 -/
 import Dassh.Model.Mesh
+import Dassh.Gen.C10X
 import Mathlib.Algebra.Order.Field.Basic
 import Mathlib.Algebra.BigOperators.Group.List.Basic
 import Mathlib.Tactic.Linarith
